@@ -2,9 +2,10 @@ ID = "C18"
 CONFIG = dict(
     harness="c18_threads",
     flavours=["omp"],
+    confirm=(20, 3),   # schedule dependent: a candidate counts if it fails >= 3 times in 20 fresh runs
     engines="rapidcheck + schedule-perturbation hooks (UCL_STIR_VERIF)",
     technique="randomised schedule exploration: generated workloads/thread counts with yields, spins and sleeps injected at guarded schedule points (pure function of the case), differential oracle against the single-thread run, fresh objects per repetition",
-    rule="a case = (small geometry, image, workload in {forward projection, back projection, log-likelihood value, subset gradient, subset sensitivity + gradient-plus-sensitivity, Hessian x vector}, threads 2..24, matrix cache mode, symmetry switches, perturbation seed/intensity/low-priority threads, 2-6 repetitions with fresh objects); non-trivial = >= 2 threads and >= 2 views of work; the evidence also counts cases in which one schedule point was hit by >= 2 threads",
+    rule="a case = (small geometry, image, workload in {forward projection, back projection, log-likelihood value, subset gradient, subset sensitivity + gradient-plus-sensitivity, Hessian x vector, concurrent first use of the lazily built geometry tables}, threads 2..24, matrix cache mode, symmetry switches, perturbation seed/intensity/low-priority threads, 2-6 repetitions with fresh objects); non-trivial = >= 2 threads and >= 2 views of work; the evidence also counts cases in which one schedule point was hit by >= 2 threads",
     level_text="Each generated workload is computed single-threaded and then repeatedly with T threads under a generated perturbation of the schedule at the lazy-initialisation, cache, per-thread-image and loop sites; results must agree to 1e-4 of the maximum (float reassociation) and no run may throw or crash. Randomised search over schedules: good at lost/duplicated contributions and unlucky-but-not-rare interleavings.",
     level_note="The harness does not own the OpenMP/kernel scheduler: interleavings are perturbed, not enumerated; absence of deadlock is not decided (a driver time-out is reported as inconclusive); list-mode gradient and scatter simulation workloads are not yet included. Trusted: the single-thread run of the same build as reference.",
     assumptions=["reference = the same code run with one thread", "perturbation is injected only at the UCL_STIR_VERIF schedule points"],
